@@ -130,6 +130,10 @@ def if_(prop, on):
     return _item("if", on=on, text="#if " + prop)
 
 
+def elseif_(prop, on):
+    return _item("elseif", on=on, text="#elseif " + prop)
+
+
 def else_():
     return _item("else", text="#else")
 
@@ -297,6 +301,39 @@ def layout_if(faults, k=0, where=1, style="blank", branch="then"):
     return {"files": {TOP: items}, "top": TOP}
 
 
+def layout_ifline(faults, k=0, where=2, style="blank", branch="formerly", n=500, fname="skipped.src"):
+    """a #line directive inside conditional text.  Only a directive in text that is being read renumbers and renames
+    what follows (include.c:inclHandleLine under INCLUDING(ifState)); branch:
+      formerly = in the #elseif part after a taken #if part (state FormerlyActiveIf): ignored;
+      nested   = in an #if nested in skipped text (pushed as FormerlyActiveIf): ignored;
+      inactive = in the part of an #if whose property is not asserted (InactiveIf): ignored;
+      active   = in the taken #if part: everything after it moves, also after #endif;
+      elseon   = in an #elseif part that is taken after an inactive #if part: everything after it moves."""
+    g = gap(k, style)
+    _need(all(ft.phase != "incl" for ft in faults))
+    ld = [linedir(n, fname), lines(1, "comment")]
+    if branch == "formerly":
+        _need(len(faults) >= 2)
+        body = [assert_("PlantedA"), if_("PlantedA", True)] + _faults_block(faults[:1]) + [elseif_("PlantedB", False)] + ld + g + \
+            [endif()] + _faults_block(faults[1:])
+        shown = faults
+    elif branch == "nested":
+        body = [if_("PlantedB", False), assert_("PlantedA"), if_("PlantedA", False)] + ld + g + [endif(), endif()] + _faults_block(faults)
+        shown = faults
+    elif branch == "inactive":
+        body = [if_("PlantedB", False)] + ld + g + [endif()] + _faults_block(faults)
+        shown = faults
+    elif branch == "active":
+        body = [assert_("PlantedA"), if_("PlantedA", True)] + ld + g + _faults_block(faults[:1]) + [endif()] + _faults_block(faults[1:])
+        shown = faults
+    else:
+        body = [assert_("PlantedA"), if_("PlantedB", False), lines(1, "comment"), elseif_("PlantedA", True)] + ld + g + \
+            _faults_block(faults[:1]) + [endif()] + _faults_block(faults[1:])
+        shown = faults
+    items = prelude() + (g if where in (0, 1) else []) + body + _uses(shown)
+    return {"files": {TOP: items}, "top": TOP}
+
+
 def layout_ifinc(faults, k=0, where=2, style="blank"):
     """text skipped by an inactive #if, then an #include, then the faults: the first position made
     after the return starts a new line-table segment, so the includer's own line count (which
@@ -418,7 +455,7 @@ def layout_adj(faults, k=0, where=1, style="blank", mode="inc"):
     return {"files": files, "top": TOP, "standins": standins}
 
 
-LAYOUTS = {"adj": layout_adj, "gen": layout_gen, "same": layout_same, "inc": layout_inc, "line": layout_line, "if": layout_if,
+LAYOUTS = {"adj": layout_adj, "gen": layout_gen, "same": layout_same, "inc": layout_inc, "line": layout_line, "if": layout_if, "ifline": layout_ifline,
            "incline": layout_inc_line, "ifinc": layout_ifinc, "collide": layout_collide, "eofif": layout_eofif}
 
 
